@@ -163,6 +163,11 @@ def hazard_alphabet():
     A.append(("convX>Y_padtop", conv_spec(X, Y, k=(3, 3), pad=(2, 0, 0, 2))))
     A.append(("convY>X_padtop", conv_spec(Y, X, k=(3, 3), pad=(2, 0, 0, 2))))
     A.append(("convX>Y_s2", conv_spec(X, Y, s=(2, 2), pad=(0, 0, 1, 1))))
+    # anisotropic strides (x stride larger than y stride and the reverse): the first jobs of the consumer reach further in x
+    A.append(("convY>X_s3x1", conv_spec(Y, X, s=(3, 1), pad=(1, 1, 1, 1))))
+    A.append(("convY>X_s1x3", conv_spec(Y, X, s=(1, 3), pad=(1, 1, 1, 1))))
+    A.append(("maxpoolY>X_s3x1", pool_spec("MAX", Y, X, k=(3, 3), s=(3, 1), pad=(1, 1, 1, 1))))
+    A.append(("maxpoolY>X_s2x1_big", pool_spec("MAX", Y, X, k=(2, 2), s=(2, 1), block="largest")))
     A.append(("convY>X_big", conv_spec(Y, X, block="largest")))
     A.append(("convX>Z", conv_spec(X, Z)))
     A.append(("convZ>X", conv_spec(Z, X)))
